@@ -11,6 +11,7 @@ CONSTANTS
   BatchVecs = {}
   FConsolidateTombstones = FALSE
   SkipRejected = FALSE
+  ConsolidateBatch = 0
   FBufferBlind = FALSE
 INVARIANTS GetOK IndexOK
 CONSTRAINT HighWater
